@@ -138,184 +138,6 @@ Ltac area_tac :=
   intros *; intros Hsim Hpos; destruct_pts; unfold_kernels; unfold_ops;
   sim_sqrt Hsim Hpos; field.
 
-(* -------------------------------------------------------- volume kernels *)
-  Lemma tet_core_affine M t q0 q1 q2 q3 :
-    k_element_volumes_tet_like_core ROps (aff ROps M t q0) (aff ROps M t q1) (aff ROps M t q2) (aff ROps M t q3)
-    = mdet ROps M * k_element_volumes_tet_like_core ROps q0 q1 q2 q3.
-  Proof. vol_tac. Qed.
-  Lemma hex_with_nodes_affine M t q0 q1 q2 q3 q4 q5 q6 q7 :
-    k_element_volumes_hex_with_nodes ROps (aff ROps M t q0) (aff ROps M t q1) (aff ROps M t q2) (aff ROps M t q3) (aff ROps M t q4) (aff ROps M t q5) (aff ROps M t q6) (aff ROps M t q7)
-    = mdet ROps M * k_element_volumes_hex_with_nodes ROps q0 q1 q2 q3 q4 q5 q6 q7.
-  Proof. vol_tac. Qed.
-  Lemma tet_affine M t p0 p1 p2 p3 :
-    k_element_volumes_tet_like ROps (aff ROps M t p0) (aff ROps M t p1) (aff ROps M t p2) (aff ROps M t p3)
-    = mdet ROps M * k_element_volumes_tet_like ROps p0 p1 p2 p3.
-  Proof. vol_tac. Qed.
-  Lemma pyr_affine M t p0 p1 p2 p3 p4 :
-    k_element_volumes_pyr ROps (aff ROps M t p0) (aff ROps M t p1) (aff ROps M t p2) (aff ROps M t p3) (aff ROps M t p4)
-    = mdet ROps M * k_element_volumes_pyr ROps p0 p1 p2 p3 p4.
-  Proof. vol_tac. Qed.
-  Lemma pyr_centroid_affine M t p0 p1 p2 p3 p4 :
-    k_element_volumes_pyr_centroid ROps (aff ROps M t p0) (aff ROps M t p1) (aff ROps M t p2) (aff ROps M t p3) (aff ROps M t p4)
-    = mdet ROps M * k_element_volumes_pyr_centroid ROps p0 p1 p2 p3 p4.
-  Proof. intros; destruct_pts; unfold_all; field. Qed.
-  Lemma prism_affine M t p0 p1 p2 p3 p4 p5 :
-    k_element_volumes_prism ROps (aff ROps M t p0) (aff ROps M t p1) (aff ROps M t p2) (aff ROps M t p3) (aff ROps M t p4) (aff ROps M t p5)
-    = mdet ROps M * k_element_volumes_prism ROps p0 p1 p2 p3 p4 p5.
-  Proof. vol_tac. Qed.
-  Lemma prism_centroid_affine M t p0 p1 p2 p3 p4 p5 :
-    k_element_volumes_prism_centroid ROps (aff ROps M t p0) (aff ROps M t p1) (aff ROps M t p2) (aff ROps M t p3) (aff ROps M t p4) (aff ROps M t p5)
-    = mdet ROps M * k_element_volumes_prism_centroid ROps p0 p1 p2 p3 p4 p5.
-  Proof. intros; destruct_pts; unfold_all; field. Qed.
-  Lemma hex_affine M t p0 p1 p2 p3 p4 p5 p6 p7 :
-    k_element_volumes_hex ROps (aff ROps M t p0) (aff ROps M t p1) (aff ROps M t p2) (aff ROps M t p3) (aff ROps M t p4) (aff ROps M t p5) (aff ROps M t p6) (aff ROps M t p7)
-    = mdet ROps M * k_element_volumes_hex ROps p0 p1 p2 p3 p4 p5 p6 p7.
-  Proof. vol_tac. Qed.
-  Lemma hex_centroid_affine M t p0 p1 p2 p3 p4 p5 p6 p7 :
-    k_element_volumes_hex_centroid ROps (aff ROps M t p0) (aff ROps M t p1) (aff ROps M t p2) (aff ROps M t p3) (aff ROps M t p4) (aff ROps M t p5) (aff ROps M t p6) (aff ROps M t p7)
-    = mdet ROps M * k_element_volumes_hex_centroid ROps p0 p1 p2 p3 p4 p5 p6 p7.
-  Proof. intros; destruct_pts; unfold_all; field. Qed.
-
-
-Lemma hexprism_affine M t p0 p1 p2 p3 p4 p5 p6 p7 p8 p9 p10 p11 :
-    k_element_volumes_hexprism ROps (aff ROps M t p0) (aff ROps M t p1) (aff ROps M t p2)
-      (aff ROps M t p3) (aff ROps M t p4) (aff ROps M t p5) (aff ROps M t p6) (aff ROps M t p7)
-      (aff ROps M t p8) (aff ROps M t p9) (aff ROps M t p10) (aff ROps M t p11)
-    = mdet ROps M * k_element_volumes_hexprism ROps p0 p1 p2 p3 p4 p5 p6 p7 p8 p9 p10 p11.
-  Proof. vol_tac. Qed.
-
-(* the quad-face helper of the centroid kernels alone is linear (not translation
-   invariant: only the closed sums above are) *)
-Lemma quad_centroid_linear M q0 q1 q2 q3 :
-  k_volumes_quad_centroid ROps (mapply ROps M q0) (mapply ROps M q1) (mapply ROps M q2) (mapply ROps M q3)
-  = mdet ROps M * k_volumes_quad_centroid ROps q0 q1 q2 q3.
-Proof. intros; destruct_pts; unfold_all; field. Qed.
-
-(* ---------------------------------------------------------- area kernels *)
-Lemma tri_crosses_affine M t p0 p1 p2 :
-  k_tri_crosses ROps (aff ROps M t p0) (aff ROps M t p1) (aff ROps M t p2)
-  = mapply ROps (cof ROps M) (k_tri_crosses ROps p0 p1 p2).
-Proof. intros; destruct_pts; unfold_all; apply v3_eq; ring. Qed.
-
-Lemma tri_area_similarity M s t p0 p1 p2 : similarity M s -> 0 <= s ->
-  k_element_areas_tri ROps (aff ROps M t p0) (aff ROps M t p1) (aff ROps M t p2)
-  = s * s * k_element_areas_tri ROps p0 p1 p2.
-Proof. area_tac. Qed.
-Lemma quad_area_similarity M s t p0 p1 p2 p3 : similarity M s -> 0 <= s ->
-  k_element_areas_quad ROps (aff ROps M t p0) (aff ROps M t p1) (aff ROps M t p2) (aff ROps M t p3)
-  = s * s * k_element_areas_quad ROps p0 p1 p2 p3.
-Proof. area_tac. Qed.
-Lemma quad_centroid_area_similarity M s t p0 p1 p2 p3 : similarity M s -> 0 <= s ->
-  k_element_areas_quad_centroid ROps (aff ROps M t p0) (aff ROps M t p1) (aff ROps M t p2) (aff ROps M t p3)
-  = s * s * k_element_areas_quad_centroid ROps p0 p1 p2 p3.
-Proof. area_tac. Qed.
-Lemma quad_gaussian_area_similarity M s t p0 p1 p2 p3 : similarity M s -> 0 <= s ->
-  k_element_areas_quad_gaussian ROps (aff ROps M t p0) (aff ROps M t p1) (aff ROps M t p2) (aff ROps M t p3)
-  = s * s * k_element_areas_quad_gaussian ROps p0 p1 p2 p3.
-Proof. area_tac. Qed.
-
-(* --------------------------------------------------------------- normals *)
-Lemma Rltb_eq a b c d : a = c -> b = d -> Rltb a b = Rltb c d.
-Proof. intros -> ->. reflexivity. Qed.
-Lemma mapply_vdivs M v k : k <> 0 -> mapply ROps M (vdivs ROps v k) = vdivs ROps (mapply ROps M v) k.
-Proof. intros Hk; destruct_pts; unfold_ops; apply v3_eq; field; exact Hk. Qed.
-Lemma epsilon_pos : 0 < epsilon ROps.
-Proof. unfold_ops. cbv [epsilon lit div of_Z ROps]. lra. Qed.
-Lemma norm_nonneg v : 0 <= norm ROps v.
-Proof. cbv [norm sqrt_ ROps]. apply sqrt_pos. Qed.
-
-(* functions.normalize commutes with rotations *)
-Lemma normalize_rot M : rotation M ->
-  forall v' v, v' = mapply ROps M v -> normalize ROps v' = mapply ROps M (normalize ROps v).
-Proof.
-  intros Hrot v' v ->. pose proof Hrot as [Hsim Hdet].
-  assert (Hn : norm ROps (mapply ROps M v) = norm ROps v).
-  { rewrite <- (cof_rot M Hrot) at 1. rewrite (norm_cof M 1 v Hsim) by lra. ring. }
-  unfold normalize. rewrite Hn.
-  cbv [ltb_ ROps]. fold ROps.
-  destruct (Rltb (norm ROps v) (epsilon ROps)) eqn:E.
-  - rewrite mapply_vdivs; [reflexivity | pose proof epsilon_pos; lra].
-  - rewrite mapply_vdivs; [reflexivity |].
-    unfold Rltb in E. destruct (Rlt_dec (norm ROps v) (epsilon ROps)); [discriminate |].
-    pose proof epsilon_pos. lra.
-Qed.
-
-Ltac normal_tac :=
-  let Hrot := fresh "Hrot" in
-  intros *; intros Hrot; unfold_kernels;
-  repeat (apply (normalize_rot _ Hrot));
-  match goal with |- _ = mapply ROps ?M0 ?v =>
-    transitivity (mapply ROps (cof ROps M0) v); [| now rewrite (cof_rot _ Hrot)] end;
-  clear Hrot; destruct_pts; unfold_ops; apply v3_eq; ring.
-
-Lemma tri_normals_rotation M t p0 p1 p2 : rotation M ->
-  k_tri_normals ROps (aff ROps M t p0) (aff ROps M t p1) (aff ROps M t p2)
-  = mapply ROps M (k_tri_normals ROps p0 p1 p2).
-Proof. normal_tac. Qed.
-Lemma quad_normals_rotation M t p0 p1 p2 p3 : rotation M ->
-  k_quad_normals ROps (aff ROps M t p0) (aff ROps M t p1) (aff ROps M t p2) (aff ROps M t p3)
-  = mapply ROps M (k_quad_normals ROps p0 p1 p2 p3).
-Proof. normal_tac. Qed.
-Lemma quad_normals_centroid_rotation M t p0 p1 p2 p3 : rotation M ->
-  k_quad_normals_centroid ROps (aff ROps M t p0) (aff ROps M t p1) (aff ROps M t p2) (aff ROps M t p3)
-  = mapply ROps M (k_quad_normals_centroid ROps p0 p1 p2 p3).
-Proof. normal_tac. Qed.
-
-(* ----------------------------------------- reference elements, closed forms *)
-Ltac ref_tac := unfold_all; field.
-Lemma tet_ref : k_element_volumes_tet_like ROps (0,0,0) (1,0,0) (0,1,0) (0,0,1) = 1 / 6.
-Proof. ref_tac. Qed.
-Lemma pyr_ref : k_element_volumes_pyr ROps (0,0,0) (1,0,0) (1,1,0) (0,1,0) (0,0,1) = 1 / 3.
-Proof. ref_tac. Qed.
-Lemma pyr_centroid_ref :
-  k_element_volumes_pyr_centroid ROps (0,0,0) (1,0,0) (1,1,0) (0,1,0) (0,0,1) = 1 / 3.
-Proof. ref_tac. Qed.
-Lemma prism_ref :
-  k_element_volumes_prism ROps (0,0,0) (0,1,0) (1,0,0) (0,0,1) (0,1,1) (1,0,1) = 1 / 2.
-Proof. ref_tac. Qed.
-Lemma prism_centroid_ref :
-  k_element_volumes_prism_centroid ROps (0,0,0) (0,1,0) (1,0,0) (0,0,1) (0,1,1) (1,0,1) = 1 / 2.
-Proof. ref_tac. Qed.
-Lemma hex_ref :
-  k_element_volumes_hex ROps (0,0,0) (1,0,0) (1,1,0) (0,1,0) (0,0,1) (1,0,1) (1,1,1) (0,1,1) = 1.
-Proof. ref_tac. Qed.
-Lemma hex_gaussian_ref :
-  k_element_volumes_hex_gaussian ROps (0,0,0) (1,0,0) (1,1,0) (0,1,0) (0,0,1) (1,0,1) (1,1,1) (0,1,1) = 1.
-Proof. ref_tac. Qed.
-Lemma hex_centroid_ref :
-  k_element_volumes_hex_centroid ROps (0,0,0) (1,0,0) (1,1,0) (0,1,0) (0,0,1) (1,0,1) (1,1,1) (0,1,1) = 1.
-Proof. ref_tac. Qed.
-(* affine image of the regular hexagonal prism: hexagon u, v, v-u, -u, -v, u-v *)
-Lemma hexprism_ref :
-  k_element_volumes_hexprism ROps (1,0,0) (0,1,0) (-1,1,0) (-1,0,0) (0,-1,0) (1,-1,0)
-                                  (1,0,1) (0,1,1) (-1,1,1) (-1,0,1) (0,-1,1) (1,-1,1) = 3.
-Proof. ref_tac. Qed.
-
-(* parallelogram quads: all three modes give |(p1-p0) x (p3-p0)| *)
-Ltac to_closed k :=
-  match goal with |- _ = sqrt ?B =>
-    repeat match goal with |- context [sqrt ?a] =>
-      lazymatch a with B => fail | _ => idtac end;
-      replace (sqrt a) with (k * sqrt B)
-        by ((rewrite <- (sqrt_sq_scale k B) by lra); f_equal; first [ring | field])
-    end;
-    let q := fresh "q" in set (q := sqrt B); clearbody q
-  end.
-Ltac quad_closed k := intros; destruct_pts; unfold_kernels; unfold_ops; to_closed k; field.
-Definition par (p0 p1 p3 : v3 R) : v3 R := vsub ROps (vadd ROps p1 p3) p0.
-Lemma quad_parallelogram_linear p0 p1 p3 :
-  k_element_areas_quad ROps p0 p1 (par p0 p1 p3) p3
-  = norm ROps (cross ROps (vsub ROps p1 p0) (vsub ROps p3 p0)).
-Proof. unfold par. quad_closed (1%R). Qed.
-Lemma quad_parallelogram_gaussian p0 p1 p3 :
-  k_element_areas_quad_gaussian ROps p0 p1 (par p0 p1 p3) p3
-  = norm ROps (cross ROps (vsub ROps p1 p0) (vsub ROps p3 p0)).
-Proof. unfold par. quad_closed (4%R). Qed.
-Lemma quad_parallelogram_centroid p0 p1 p3 :
-  k_element_areas_quad_centroid ROps p0 p1 (par p0 p1 p3) p3
-  = norm ROps (cross ROps (vsub ROps p1 p0) (vsub ROps p3 p0)).
-Proof. unfold par. quad_closed (2%R). Qed.
-
 (* ------------------------------------------- id -> position lookup (lists) *)
 Section Relabel.
   Variable P : Type.
@@ -445,3 +267,4 @@ Qed.
 Lemma by_id_assignment_is_spec V (blocks : list (string * list (Z * V))) :
   asm_of true V blocks = Some (assemble_spec blocks).
 Proof. reflexivity. Qed.
+
